@@ -56,6 +56,8 @@ func (cr *concRun) analyse(out *ConcOutcome) {
 	cr.checkSweep()
 	cr.checkRefreshTrigger()
 	cr.checkConcIter()
+	cr.checkRejectedLoads()
+	cr.checkBulkResults()
 	cr.countOverlaps(out)
 	if cr.opts.Lin {
 		cr.checkLin(out)
@@ -818,6 +820,40 @@ func (cr *concRun) countOverlaps(out *ConcOutcome) {
 type kvState struct {
 	present bool
 	v       int
+	// fin: values of loader calls whose installation step (installed or discarded) is over and that
+	// some waiting Get returned - a waiter may only return once the load it joined has finished
+	fin [4]int
+}
+
+func (s kvState) with(present bool, v int) kvState {
+	s.present, s.v = present, v
+	return s
+}
+
+func (s kvState) hasFin(v int) bool {
+	for _, f := range s.fin {
+		if f == v && v != 0 {
+			return true
+		}
+	}
+	return false
+}
+
+func (s kvState) addFin(v int) kvState {
+	if s.hasFin(v) {
+		return s
+	}
+	for i, f := range s.fin {
+		if f == 0 {
+			s.fin[i] = v
+			// keep the set sorted so that equal sets are equal states
+			for j := i; j > 0 && s.fin[j-1] > s.fin[j]; j-- {
+				s.fin[j-1], s.fin[j] = s.fin[j], s.fin[j-1]
+			}
+			return s
+		}
+	}
+	return s
 }
 
 type linIn struct {
@@ -828,6 +864,7 @@ type linIn struct {
 	saw      int
 	sawFound bool
 	mayWait  bool
+	track    bool // install: some waiter returned this value, remember that the load has finished
 }
 
 type linOut struct {
@@ -858,7 +895,7 @@ func linStep(state, input, output interface{}) []interface{} {
 		} else if !expect(in.v, true) {
 			return nil
 		}
-		return []interface{}{kvState{true, in.v}}
+		return []interface{}{s.with(true, in.v)}
 	case "setifabsent":
 		if s.present {
 			if !expect(s.v, false) {
@@ -869,7 +906,7 @@ func linStep(state, input, output interface{}) []interface{} {
 		if !expect(in.v, true) {
 			return nil
 		}
-		return []interface{}{kvState{true, in.v}}
+		return []interface{}{s.with(true, in.v)}
 	case "get":
 		v, ok := cur()
 		if !expect(v, ok) {
@@ -881,7 +918,7 @@ func linStep(state, input, output interface{}) []interface{} {
 		if !expect(v, ok) {
 			return nil
 		}
-		return []interface{}{kvState{}}
+		return []interface{}{s.with(false, 0)}
 	case "compute", "computeifpresent":
 		if in.calls == 0 {
 			// ComputeIfPresent on an absent key
@@ -902,12 +939,12 @@ func linStep(state, input, output interface{}) []interface{} {
 			if !expect(in.v, true) {
 				return nil
 			}
-			return []interface{}{kvState{true, in.v}}
+			return []interface{}{s.with(true, in.v)}
 		case "inval":
 			if !expect(0, false) {
 				return nil
 			}
-			return []interface{}{kvState{}}
+			return []interface{}{s.with(false, 0)}
 		case "cancel":
 			if !expect(v, ok) {
 				return nil
@@ -935,7 +972,7 @@ func linStep(state, input, output interface{}) []interface{} {
 			if !expect(in.v, true) {
 				return nil
 			}
-			return []interface{}{kvState{true, in.v}}
+			return []interface{}{s.with(true, in.v)}
 		case "cancel":
 			if !expect(0, false) {
 				return nil
@@ -952,7 +989,7 @@ func linStep(state, input, output interface{}) []interface{} {
 		if !s.present || s.v != in.v {
 			return nil
 		}
-		return []interface{}{kvState{}}
+		return []interface{}{s.with(false, 0)}
 	case "observemiss":
 		if s.present {
 			return nil
@@ -963,16 +1000,21 @@ func linStep(state, input, output interface{}) []interface{} {
 		// or installed. A write that landed between the miss and the start of the load is not
 		// protected (C09 starts its window at the start of the load); writes after the start of the
 		// load are checked by the stale-load rule, not here.
-		return []interface{}{s, kvState{true, in.v}}
+		if in.track {
+			return []interface{}{s.addFin(in.v), s.with(true, in.v).addFin(in.v)}
+		}
+		return []interface{}{s, s.with(true, in.v)}
 	case "uninstall":
 		// a load that reports not-found removes whatever it finds when its call is still registered
-		return []interface{}{s, kvState{}}
+		return []interface{}{s, s.with(false, 0)}
 	case "loadres":
 		// a Get that did not invoke the loader itself and returned out.v without error
 		if s.present && s.v == out.v {
 			return same
 		}
-		if !s.present && in.mayWait {
+		if in.mayWait && s.hasFin(out.v) {
+			// it joined somebody else's load: that load has finished (its result installed or
+			// discarded - C09) before the waiter returns, whatever happened to the key since
 			return same
 		}
 		return nil
@@ -1122,6 +1164,32 @@ func (cr *concRun) checkLin(out *ConcOutcome) {
 		if len(ops) < 2 {
 			continue
 		}
+		// a Get that joined somebody else's load returns only after that load has finished: mark
+		// the installation steps whose value a waiter returned, so that the model remembers them
+		waited := map[int]bool{}
+		hasLoad := false
+		for _, o := range ops {
+			in := o.Input.(linIn)
+			if in.kind == "loadres" && in.mayWait {
+				waited[o.Output.(linOut).v] = true
+			}
+			if in.kind == "loadres" || in.kind == "install" || in.kind == "uninstall" || in.kind == "observemiss" {
+				hasLoad = true
+			}
+		}
+		if len(waited) > 4 {
+			cr.probe["lin-key-skipped-too-many-waited-loads"]++
+			continue
+		}
+		if len(waited) > 0 {
+			cr.probe["lin-waiters-checked-against-finished-load"] += len(waited)
+			for i := range ops {
+				if in := ops[i].Input.(linIn); in.kind == "install" && waited[in.v] {
+					in.track = true
+					ops[i].Input = in
+				}
+			}
+		}
 		res := porcupine.CheckOperationsTimeout(linModel, ops, 2*time.Second)
 		out.LinChecked++
 		switch res {
@@ -1133,7 +1201,11 @@ func (cr *concRun) checkLin(out *ConcOutcome) {
 			for _, o := range ops {
 				s += fmt.Sprintf("\n    c%d [%d,%d] %+v -> %+v", o.ClientId-1, o.Call/2, o.Return/2, o.Input, o.Output)
 			}
-			cr.fail(P("C02", "C09", "C15"), "lin.illegal", k, "history of key %d is not linearizable against the sequential map:%s", k, s)
+			props := P("C02", "C09", "C15")
+			if hasLoad {
+				props = withProp(props, "C10") // "a successful load caches the value and returns it"
+			}
+			cr.fail(props, "lin.illegal", k, "history of key %d is not linearizable against the sequential map:%s", k, s)
 		}
 	}
 }
